@@ -5,6 +5,7 @@ an activity is ``{'name': str, 'steps': [step, ...]}``.  The interpreter only ca
 public usim API, logs every step (start / end / exception) into the session's event
 log and classifies every exception that program code can observe (C03).
 """
+import inspect
 import os
 import random
 import weakref
@@ -103,13 +104,15 @@ def leaves(exc):
 
 
 class Ctx:
-    __slots__ = ('name', 'task', 'scopes', 'parent_scope', 'held', 'first_agens')
+    __slots__ = ('name', 'task', 'scopes', 'parent_scope', 'held', 'first_agens',
+                 'parent_key')
 
-    def __init__(self, name, task=None, parent_scope=None):
+    def __init__(self, name, task=None, parent_scope=None, parent_key=None):
         self.name = name
         self.task = task
         self.scopes = []
         self.parent_scope = parent_scope
+        self.parent_key = parent_key
         self.held = []
         self.first_agens = []   # weak references to first() generators being consumed
 
@@ -138,6 +141,14 @@ class Env:
         self.raised = {}
         self.first_struck = set()
         self.keep = []
+        self.scope_seq = 0
+        self.scope_inst = {}      # scope instance key -> info dict (C04/C05 monitors)
+        self.actor_parent = {}    # actor -> ('task', scope key) | ('act', caller actor)
+        self.names_used = {}
+        self.cancel_calls = {}    # task instance name -> [(time, token, status at call, n)]
+        self.await_results = {}   # task instance name -> [(awaiter, kind, ident)]
+        self.refused = []         # (coroutine weakref, name) of payloads refused by do()
+        self.task_names = {}      # id(task) -> instance name
         self.tasks = {}           # child name -> Task
         self.ctxs = {}            # activity name -> Ctx
         self.scopes = {}          # scope step id -> Scope object
@@ -200,6 +211,12 @@ class Env:
         exc = EXC_TYPES[kind](tag)
         self.raised[id(exc)] = weakref.ref(exc)
         return exc
+
+    def note_cancel(self, task, token):
+        name = self.task_names.get(id(task))
+        if name is not None:
+            self.cancel_calls.setdefault(name, []).append(
+                (self.sess.now(), token, str(task.status).split('.')[-1], self.sess.n))
 
     def is_own(self, exc):
         ref = self.raised.get(id(exc))
@@ -396,13 +413,22 @@ async def exec_step(env, ctx, step):
     env.log(ctx.name, 'end', op, sid, result)
 
 
-def activity(env, spec, ctx=None):
+def instance_name(env, name):
+    """a step may execute several times (loops): every instantiation gets its own label"""
+    count = env.names_used.get(name, 0)
+    env.names_used[name] = count + 1
+    return name if count == 0 else '%s~%d' % (name, count)
+
+
+def activity(env, spec, ctx=None, parent=None):
     """create the coroutine of an activity; its (and its task wrapper's) name is the label"""
     if ctx is None:
-        ctx = Ctx(spec['name'])
-    env.ctxs[spec['name']] = ctx
+        ctx = Ctx(instance_name(env, spec['name']))
+    env.ctxs[ctx.name] = ctx
+    if parent is not None:
+        env.actor_parent[ctx.name] = parent
     coro = _activity(env, ctx, spec)
-    coro.__name__ = coro.__qualname__ = spec['name']
+    coro.__name__ = coro.__qualname__ = ctx.name
     return coro
 
 
@@ -413,16 +439,37 @@ async def _activity(env, ctx, spec):
     except BaseException as exc:  # noqa: B902
         env.log(ctx.name, 'fail', exc_name(exc) if not isinstance(
             exc, (Interrupt, GeneratorExit)) else type(exc).__name__)
+        if ctx.parent_key is not None and env.sess.armed and env.sess.stack:
+            info = env.scope_inst.get(ctx.parent_key)
+            if info is not None:
+                if isinstance(exc, CancelTask):
+                    kind = 'cancelled'
+                elif isinstance(exc, GeneratorExit):
+                    kind = 'closed'
+                elif isinstance(exc, Interrupt):
+                    kind = 'signal'
+                else:
+                    kind = 'failed'
+                try:
+                    ref = weakref.ref(exc)
+                except TypeError:
+                    ref = None
+                info['ends'].append((ctx.name, kind, ref, id(exc), env.sess.now(),
+                                     exc_name(exc) if kind == 'failed' else kind))
         raise
     env.log(ctx.name, 'finish')
+    if ctx.parent_key is not None and env.sess.armed and env.sess.stack:
+        info = env.scope_inst.get(ctx.parent_key)
+        if info is not None:
+            info['ends'].append((ctx.name, 'finished', None, None, env.sess.now(), 'finished'))
     return spec.get('result')
 
 
-def spawn(env, ctx, scope, child):
+def spawn(env, ctx, scope, key, child):
     """scope.do(...) for a child spec; returns the task or None (refused)"""
-    name = child['name']
-    cctx = Ctx(name, parent_scope=scope)
-    coro = activity(env, child, cctx)
+    name = instance_name(env, child['name'])
+    cctx = Ctx(name, parent_scope=scope, parent_key=key)
+    coro = activity(env, child, cctx, parent=('task', key))
     kwargs = {}
     if child.get('volatile'):
         kwargs['volatile'] = True
@@ -435,14 +482,29 @@ def spawn(env, ctx, scope, child):
             return None
         kwargs['at'] = child['at']
     env.junk()
+    info = env.scope_inst.get(key)
+    was_left = info is not None and info.get('left') is not None
     try:
         task = scope.do(coro, **kwargs)
     except ScopeClosed:
         env.log(ctx.name, 'spawn-refused', name)
         env.sess.stats['spawn_refused'] += 1
+        env.refused.append((weakref.ref(coro), name))
+        if inspect.getcoroutinestate(coro) != inspect.CORO_CLOSED:
+            env.sess.violation('c04:refused-payload-not-discarded',
+                               'do() refused %s but left its payload open' % name)
         return None
+    if was_left:
+        env.sess.violation('c04:spawn-into-ended-scope-accepted',
+                           '%s: do() accepted %s although control had left the block' % (
+                               ctx.name, name))
     cctx.task = task
     env.tasks[name] = task
+    env.task_names[id(task)] = name
+    if child['name'] != name:
+        env.tasks[child['name']] = task     # by-name references mean the latest instance
+    if info is not None:
+        info['children'].append((name, bool(child.get('volatile'))))
     env.log(ctx.name, 'spawn', name)
     return task
 
@@ -560,36 +622,197 @@ async def op_transfer(env, ctx, step):
 
 
 async def op_scope(env, ctx, step):
-    if step.get('n') is not None:
-        scope = until(make_notif(env, step['n']))
+    notif = step.get('n')
+    if notif is not None:
+        scope = until(make_notif(env, notif))
     else:
         scope = Scope()
     sid = step.get('id')
-    env.scopes[sid] = scope
+    env.scope_seq += 1
+    key = '%s#%d' % (sid, env.scope_seq)
+    info = env.scope_inst[key] = {
+        'sid': sid, 'owner': ctx.name, 'children': [], 'ends': [], 'until': notif is not None,
+        'entered': env.sess.now(), 'left': None, 'body': None,
+    }
+    env.scopes[sid] = (scope, key)
     ctx.scopes.append(scope)
+    body_exc = outer_exc = None
     try:
         try:
             async with scope:
                 for child in step.get('children', ()):
-                    spawn(env, ctx, scope, child)
-                await run_steps(env, ctx, step['body'])
+                    spawn(env, ctx, scope, key, child)
+                try:
+                    await run_steps(env, ctx, step['body'])
+                except BaseException as exc:  # noqa: B902
+                    body_exc = exc
+                    info['body'] = (env.sess.now(), type(exc).__name__)
+                    raise
                 env.log(ctx.name, 'body-done', sid)
+                info['body_done'] = True
+        except BaseException as exc:  # noqa: B902
+            outer_exc = exc
+            raise
         finally:
             ctx.scopes.remove(scope)
             env.ended_scopes.add(sid)
-            env.log(ctx.name, 'scope-left', sid)
+            env.log(ctx.name, 'scope-left', sid, key)
+            if env.sess.armed and env.sess.stack:
+                scope_exit_monitor(env, ctx, key, scope, body_exc, outer_exc)
+            body_exc = outer_exc = None     # break the frame <-> traceback cycle
     except Concurrent as exc:
         if step.get('catch'):
             return exc_name(exc)
         raise
 
 
+SUPPRESSED = (TaskCancelled, TaskClosed, GeneratorExit)
+
+
+def scope_exit_monitor(env, ctx, key, scope, body_exc, outer_exc):
+    """C04 (containment at exit) and C05 (how a scope may fail), evaluated where control
+    leaves the block; everything compared is read from the log of what really happened"""
+    sess = env.sess
+    info = env.scope_inst[key]
+    now = sess.now()
+    info['left'] = (len(sess.events), sess.n, now)
+    sess.stats['scope_exits'] += 1
+    # ---- C04: every task started in the block is done ----
+    statuses = {}
+    for name, volatile in info['children']:
+        task = env.tasks.get(name)
+        if task is None:
+            continue
+        statuses[name] = str(task.status).split('.')[-1]
+        if not task.done:
+            sess.violation('c04:child-alive-at-exit',
+                           'block %s of %s was left at %r while its child %s is %s' % (
+                               key, ctx.name, now, name, statuses[name]))
+    info['statuses'] = statuses
+    normal = (outer_exc is None and body_exc is None and info.get('body_done')
+              and not info['until'])
+    info['normal'] = normal
+    if normal:
+        sess.stats['normal_exits'] += 1
+        for name, volatile in info['children']:
+            if volatile or name not in statuses:
+                continue
+            if statuses[name] == 'SUCCESS':
+                continue
+            if statuses[name] == 'CANCELLED' and env.cancel_calls.get(name):
+                continue
+            sess.violation('c04:normal-exit-child-not-completed',
+                           'block %s ended normally but its non-volatile child %s is %s' % (
+                               key, name, statuses[name]))
+        # volatile children are closed only after all non-volatile ones have finished
+        volatile_names = {name for name, volatile in info['children'] if volatile}
+        closed_seen = None
+        for end in info['ends']:
+            if end[0] in volatile_names:
+                if end[1] == 'closed' and closed_seen is None:
+                    closed_seen = end[0]
+            elif closed_seen is not None:
+                sess.violation('c04:volatile-closed-before-nonvolatile-finished',
+                               'block %s: volatile child %s was closed before non-volatile '
+                               'child %s ended (%s)' % (key, closed_seen, end[0], end[1]))
+                break
+    # ---- C05: outcome of the block ----
+    own = body_exc is None or (isinstance(body_exc, CancelScope) and body_exc.subject is scope)
+    failures = [end for end in info['ends'] if end[1] == 'failed']
+    content = []
+    privileged = []
+    for end in failures:
+        exc = end[2]() if end[2] is not None else None
+        if exc is None:
+            content = None      # object gone: cannot compare identities (does not happen)
+            break
+        if isinstance(exc, SUPPRESSED):
+            continue
+        if isinstance(exc, PRIVILEGED):
+            privileged.append(exc)
+        content.append(exc)
+    sess.stats['c05_blocks_checked'] += 1
+    if any(end[1] == 'signal' for end in info['ends']):
+        # a child ended with an internal signal: that leak is reported where program code saw
+        # it (C03, e.g. D15); what the parent makes of it is not judged here
+        content = None
+        sess.stats['c05_blocks_tainted'] += 1
+    if content is not None:
+        if failures or not own:
+            sess.stats['c05_failing_blocks'] += 1
+        foreign = (outer_exc is not None and isinstance(outer_exc, (Interrupt, GeneratorExit))
+                   and not (isinstance(outer_exc, CancelScope) and outer_exc.subject is scope))
+        if own and foreign:
+            # a signal that is not this block's own (cancellation of the owning task, abort of
+            # an enclosing block, close) struck the body or the graceful shutdown and passes on
+            sess.stats['c05_foreign_signal_exits'] += 1
+        elif own:
+            if privileged:
+                if outer_exc is not privileged[0]:
+                    sess.violation('c05:privileged-not-promoted',
+                                   'block %s: a child failed with privileged %s but the block '
+                                   'ended with %s' % (key, exc_name(privileged[0]),
+                                                      describe(outer_exc)))
+            elif content:
+                if not isinstance(outer_exc, Concurrent):
+                    sess.violation('c05:child-failure-lost',
+                                   'block %s: children failed with [%s] but the block ended '
+                                   'with %s' % (key, ', '.join(map(exc_name, content)),
+                                                describe(outer_exc)))
+                else:
+                    got = list(outer_exc.children)
+                    if len(got) != len(content) or any(
+                            a is not b for a, b in zip(got, content)):
+                        sess.violation('c05:concurrent-content',
+                                       'block %s: Concurrent carries [%s], direct children '
+                                       'failed with [%s] (in this order)' % (
+                                           key, ', '.join(map(exc_name, got)),
+                                           ', '.join(map(exc_name, content))))
+            elif outer_exc is not None and not (
+                    isinstance(outer_exc, CancelScope) and outer_exc.subject is scope):
+                sess.violation('c05:spurious-exception',
+                               'block %s: neither body nor children failed but the block '
+                               'ended with %s' % (key, describe(outer_exc)))
+            if outer_exc is not None and isinstance(outer_exc, CancelScope) \
+                    and outer_exc.subject is scope:
+                sess.violation('c05:own-signal-escaped',
+                               'block %s ended with its own cancel signal' % key)
+        else:
+            allowed = [body_exc] + privileged
+            if not any(outer_exc is exc for exc in allowed):
+                sess.violation('c05:body-exception-replaced',
+                               'block %s: the body ended with %s but the block ended with %s'
+                               % (key, describe(body_exc), describe(outer_exc)))
+        # promptness: the block ends at the virtual time of the first failure
+        times = [end[4] for end in failures
+                 if end[2] is not None and not isinstance(end[2](), SUPPRESSED)]
+        if not own and not isinstance(body_exc, (Interrupt, GeneratorExit)):
+            times.append(info['body'][0])
+        if foreign:
+            times.append(now)
+        if times and now != min(times):
+            sess.violation('c05:abort-not-prompt',
+                           'block %s: first failure at %r but the block was left at %r' % (
+                               key, min(times), now))
+
+
+def describe(exc):
+    if exc is None:
+        return 'no exception'
+    if isinstance(exc, (Interrupt, GeneratorExit)):
+        return type(exc).__name__
+    return exc_name(exc)
+
+
 async def op_spawn(env, ctx, step):
     """spawn a sibling into the scope this activity was started in (or a named scope)"""
-    scope = env.scopes.get(step['scope']) if step.get('scope') else ctx.parent_scope
+    if step.get('scope'):
+        scope, key = env.scopes.get(step['scope'], (None, None))
+    else:
+        scope, key = ctx.parent_scope, ctx.parent_key
     if scope is None:
         return 'noscope'
-    task = spawn(env, ctx, scope, step['child'])
+    task = spawn(env, ctx, scope, key, step['child'])
     return 'refused' if task is None else 'ok'
 
 
@@ -597,6 +820,7 @@ async def op_cancel(env, ctx, step):
     task = env.tasks.get(step['task'])
     if task is None:
         return 'notask'
+    env.note_cancel(task, tuple(step.get('token', ())))
     task.cancel(*step.get('token', ()))
     if step.get('yield', True):
         await instant
@@ -639,7 +863,7 @@ async def op_ticker(env, ctx, step):
 
 
 async def op_collect(env, ctx, step):
-    acts = [activity(env, act) for act in step['acts']]
+    acts = [activity(env, act, parent=('act', ctx.name)) for act in step['acts']]
     try:
         return await usim.collect(*acts)
     except Concurrent as exc:
@@ -657,7 +881,7 @@ def _track_first(ctx, agen):
 
 
 async def op_first(env, ctx, step):
-    acts = [activity(env, act) for act in step['acts']]
+    acts = [activity(env, act, parent=('act', ctx.name)) for act in step['acts']]
     got = []
     try:
         try:
@@ -695,6 +919,71 @@ HANDLERS = {
 }
 
 
+def containment_monitor(env):
+    """C04, offline over the recorded log: no code of a task (or of anything below it) runs
+    after control left the block the task was started in"""
+    sess = env.sess
+    chains = {}
+
+    def chain(actor):
+        try:
+            return chains[actor]
+        except KeyError:
+            pass
+        result = []
+        seen = set()
+        current = actor
+        while current in env.actor_parent and current not in seen:
+            seen.add(current)
+            kind, ref = env.actor_parent[current]
+            if kind == 'task':
+                result.append(ref)
+                current = env.scope_inst[ref]['owner'] if ref in env.scope_inst else None
+            else:
+                current = ref
+        chains[actor] = result
+        return result
+
+    begun = set()
+    checked = 0
+    for index, event in enumerate(sess.events):
+        actor = event[1]
+        if event[2] == 'begin':
+            begun.add(actor)
+        for key in chain(actor):
+            info = env.scope_inst.get(key)
+            if info is None or info['left'] is None:
+                continue
+            checked += 1
+            if index >= info['left'][0]:
+                sess.violation(
+                    'c04:code-ran-after-scope-exit',
+                    '%s logged %r at %r after control left block %s (of %s) at %r' % (
+                        actor, event[2:5], event[0], key, info['owner'], info['left'][2]))
+                break
+    late = {}
+    first_exit = {}
+    for position, (label, when) in enumerate(sess.trace):
+        try:
+            limit = first_exit[label]
+        except KeyError:
+            lefts = [env.scope_inst[key]['left'][1] for key in chain(label)
+                     if key in env.scope_inst and env.scope_inst[key]['left'] is not None]
+            limit = first_exit[label] = min(lefts) if lefts else None
+        if limit is not None and position >= limit:
+            late[label] = late.get(label, 0) + 1
+    for label, count in late.items():
+        if label in begun or count > 1:
+            sess.violation(
+                'c04:activation-after-scope-exit',
+                '%s was activated %d time(s) after control left a block it belongs to' % (
+                    label, count))
+    sess.stats['containment_events_checked'] += checked
+    for ref, name in env.refused:
+        if name in begun:
+            sess.violation('c04:refused-payload-ran', 'payload %s refused by do() ran' % name)
+
+
 def execute(program, session=None, prepare=None):
     """run a program under a (new) session; returns (env, outcome)"""
     sess = session if session is not None else Session()
@@ -711,4 +1000,5 @@ def execute(program, session=None, prepare=None):
         except BaseException:  # noqa: B902 - teardown (R3)
             pass
     env.outcome = env.classify_outcome(outcome)
+    containment_monitor(env)
     return env, outcome
